@@ -44,6 +44,7 @@ pub fn cfg_for(profile: &str, miri: bool) -> Cfg {
         "C17" => { c.w = [10, 3, 1, 6, 1, 1, 0]; c.pools = vec![0, 1, 2, 3]; c.max_obj = 3; c.p_mortal = 0; }
         _ => {}
     }
+    if !cfg!(feature = "hooks") { c.w[6] = 0; }   // suspend needs the queue accessor of the hooks
     if miri { c.max_threads = 3; c.max_ops = 3; c.max_obj = c.max_obj.min(2); c.p_stale = c.p_stale.min(10); }
     c
 }
